@@ -18,6 +18,7 @@ def languages(tier):
     out = dict(families.cls_langs())
     out['OPS'] = families.ops_lang()
     out['OPS2'] = families.ops2_lang()
+    out.update(list(families.fr_variants().items())[::5])
     # every pair of multiplicity forms on one association between types with subtypes, plus a same-type association
     for lf, rf in itertools.product(FORMS, repeat=2):
         out[f'mult:{lf}|{rf}'] = langs.spec([
@@ -155,6 +156,7 @@ def attempts_for(L, ac, pool):
     return uniq
 
 
+@common.job
 def job(job):
     name, tier = job
     sp = languages(tier)[name]
@@ -225,6 +227,51 @@ def job(job):
                 if after != before:
                     viols.append(common.Violation(f'rejected_but_model_changed:{why}', 'a rejected association changed the model', case=case))
                 stats['rejected'] = stats.get('rejected', 0) + 1
+        # duplicate-link matrix on a fresh model: the existing link may go through ANY member of a
+        # multi-member field (first or later, left or right)
+        exl = [n for n, t in pool if L.is_sub(t, ac['lt'])]
+        exr = [n for n, t in pool if L.is_sub(t, ac['rt'])]
+        if len(exl) >= 3 and len(exr) >= 3 and exl[:3] != exr[:3]:
+            def multi(mx):
+                return mx is None or mx >= 2
+            tries = []
+            if multi(ac['lmax']):
+                tries += [([exl[0], exl[1]], [exr[1]]), ([exl[1], exl[0]], [exr[1]]), ([exl[2], exl[1]], [exr[1]]),
+                          ([exl[2], exl[0]], [exr[1]])]
+            if multi(ac['rmax']):
+                tries += [([exl[1]], [exr[0], exr[1]]), ([exl[1]], [exr[1], exr[0]]), ([exl[1]], [exr[2], exr[1]]),
+                          ([exl[1]], [exr[2], exr[0]])]
+            if multi(ac['lmax']) and multi(ac['rmax']):
+                tries += [([exl[2], exl[0]], [exr[2], exr[0]]), ([exl[2], exl[0]], [exr[2], exr[1]])]
+            for Ln, Rn in tries:
+                m2 = Model('m2', fx.factory)
+                o2 = {}
+                for n, t in pool:
+                    o2[n] = getattr(fx.ns, t)(name=n)
+                    m2.add_asset(o2[n])
+                base = [([exl[0]], [exr[0]]), ([exl[1]], [exr[1]])]
+                try:
+                    for bl, br in base:
+                        m2.add_association(getattr(fx.ns, ac['cls'])(**{ac['lf']: [o2[n] for n in bl], ac['rf']: [o2[n] for n in br]}))
+                except Exception:  # noqa: BLE001  (e.g. a '1' multiplicity forbids the base, nothing to test)
+                    continue
+                dup = any(l in bl and r in br for bl, br in base for l in Ln for r in Rn)
+                before = model_state(m2)
+                stats['attempts'] = stats.get('attempts', 0) + 1
+                try:
+                    m2.add_association(getattr(fx.ns, ac['cls'])(**{ac['lf']: [o2[n] for n in Ln], ac['rf']: [o2[n] for n in Rn]}))
+                    acc = True
+                except Exception:  # noqa: BLE001
+                    acc = False
+                    stats['rejected'] = stats.get('rejected', 0) + 1
+                case = {'language': name, 'association': ac['cls'], 'existing': base, ac['lf']: Ln, ac['rf']: Rn}
+                if acc and dup:
+                    viols.append(common.Violation('invalid_association_accepted:duplicate_link:via_later_member',
+                                                  'a link that already exists was added again inside a multi-member association', case=case))
+                if not acc and not dup:
+                    viols.append(common.Violation('valid_association_rejected:duplicate_matrix', 'a new link was rejected', case=case))
+                if not acc and model_state(m2) != before:
+                    viols.append(common.Violation('rejected_but_model_changed:duplicate_link', 'a rejected association changed the model', case=case))
         # assignment after construction must be validated too
         exact_l = [n for n, t in pool if L.is_sub(t, ac['lt'])]
         wrong_l = [n for n, t in pool if not L.is_sub(t, ac['lt'])]
